@@ -142,6 +142,10 @@ Reorg(k) ==
      \E P2 \in SUBSET (pool \cup DetachedTxs(chain, k)) :
         /\ ReorgRel(k, blks, {}, pool, chain, conf, P2)
         /\ \A t \in P2 : AncCount(t, P2) <= conf.maxAnc         \* intended: re-admission respects the limit
+        \* strict universes (U6): as C12 intends, no entry survives a reorganisation with an input or dep that exists neither on
+        \* the new chain nor in the pool (the listed finding unknown-input/child-of-unreadmitted-detached-tx leaves such orphans;
+        \* with four generations a parent resubmitted above them would then exceed the ancestor limit)
+        /\ (StrictExpire => Purge(P2, NewChain(chain, k, blks)) = P2)
         /\ Finish(P2, NewChain(chain, k, blks), {}, [op |-> "reorg", k |-> k])
 
 SubmitAny == \E t \in Txs : Submit(t)
